@@ -147,8 +147,7 @@ def run(chk, prog):
     st = [x for x in after_loop if x["k"] == "CallExpr" and x.get("callee") == "vfps::status_string"]
     chk.check(len(st) == 1 and st[0]["line"] > fb["eline"], "R4", A.loc(mainf, st[0]) if st else mainf.where, "the last status line is printed after the final record", "after-loop:status")
     # ---- R5 -------------------------------------------------------------------------------------
-    outs = [x for x in A.walk(loop["body"]) if x["k"] == "IfStmt" and "outstep" in A.show(x["cond"]) and "simulationstep" in A.show(x["cond"])]
-    A.require(len(outs) == 1, "main: output block not found")
+    outs = [M.MainModel(prog).output_block()]
 
     def appends(node):
         out = []
